@@ -22,7 +22,7 @@
 //                          a,b,..) call.  A variadic call needs the static
 //                          types, i.e. one template instantiation per type
 //                          tuple: arity 1 and 2 over every type that the
-//                          public entry point accepts (24), arity 3 over 11
+//                          public entry point accepts (28), arity 3 over 11
 //                          code-path representatives, arity 4 (thorough) over
 //                          6.  (gSerialize(buf,t1,rest...) is
 //                          reserve(gSized(all)); gSerializeObj(t1);
@@ -104,6 +104,14 @@ static void rt() {
   }();
   (void)G;
 }
+
+// One run takes microseconds.  A wrong length read from the buffer can turn
+// into a loop of 2^60 iterations; the alarm turns such a hang into a dead
+// worker, which the driver reports as <case>:crash for the input.
+struct Watchdog {
+  Watchdog() { alarm(10); }
+  ~Watchdog() { alarm(0); }
+};
 
 #ifdef C17_PROBE_PUBLIC_DEQUE
 // g++ ... -DC17_PROBE_PUBLIC_DEQUE -fsyntax-only reproduces finding 8-7:
@@ -242,6 +250,8 @@ using GPairID  = galois::Pair<int, double>;
 using GPairIS  = galois::Pair<int, std::string>;
 using GTupIDC  = galois::TupleOfThree<int, double, char>;
 using VecI     = std::vector<int>;
+using VecUS    = std::vector<UserSer>;
+using PairSV   = std::pair<std::string, std::vector<int>>;
 using VecU8    = std::vector<uint8_t>;
 using VecU64   = std::vector<uint64_t>;
 using VecS     = std::vector<std::string>;
@@ -298,9 +308,21 @@ struct Regular { // copyable with operator==
   static bool eq(const T& a, const T& b) { return a == b; }
 };
 
+// Violation keys name the defect, not the instantiation (see family_of below).
+// gSizedSeq (Serialize.h:325) charges sizeof(uintptr_t) per element for these:
+#define SEQ_OF_NON_COPYABLE "sequence-of-non-memory-copyable-elements"
+struct NoExtra {};
+struct SizedSeqFamily {
+  static const char* sized_family() { return SEQ_OF_NON_COPYABLE; }
+};
+struct DequeFamily {
+  static const char* family() { return "std::deque<T>"; }
+};
 #define TD_REGULAR(T, PUB, NAME, ...)                                          \
+  TD_REGULAR_X(T, PUB, NoExtra, NAME, __VA_ARGS__)
+#define TD_REGULAR_X(T, PUB, EXTRA, NAME, ...)                                 \
   template <>                                                                  \
-  struct TD<T> : Regular<T>, IO<T, PUB> {                                      \
+  struct TD<T> : Regular<T>, IO<T, PUB>, EXTRA {                               \
     static const char* name() { return NAME; }                                 \
     static const std::vector<T>& vals() {                                      \
       static const std::vector<T> v{__VA_ARGS__};                              \
@@ -321,8 +343,16 @@ TD_REGULAR(PairID, true, "std::pair<int,double>", PairID(0, 0.0),
 TD_REGULAR(Pod, true, "Pod{int,double,char}", Pod{-3, 6.25, 'q'})
 TD_REGULAR(UserCopyable, true, "UserCopyable(tt_is_copyable)", UserCopyable(),
            UserCopyable(77, -0.125, "wxyz"))
-TD_REGULAR(UserSer, true, "UserSer(tt_has_serialize)", UserSer(),
-           UserSer{5, "name", {9, 8, 7}})
+struct HasSerializeFamily {
+  // gSizedObj for has_serialize types returns sizeof(uintptr_t) (and says so)
+  static const char* sized_family() { return "type-with-serialize-member"; }
+};
+TD_REGULAR_X(UserSer, true, HasSerializeFamily, "UserSer(tt_has_serialize)",
+             UserSer(), UserSer{5, "name", {9, 8, 7}})
+TD_REGULAR_X(VecUS, true, SizedSeqFamily, "std::vector<UserSer>", VecUS{},
+             VecUS{UserSer{1, "", {}}, UserSer{2, "two", {2, 2}}})
+TD_REGULAR(PairSV, true, "std::pair<std::string,std::vector<int>>",
+           PairSV("", VecI{}), PairSV("key", VecI{3, 1, 4}))
 TD_REGULAR(std::string, true, "std::string", std::string(), std::string("abc"),
            S100)
 TD_REGULAR(VecI, true, "std::vector<int>", VecI{}, VecI{42},
@@ -332,15 +362,15 @@ TD_REGULAR(VecU64, true, "std::vector<uint64_t>", VecU64{},
            VecU64{1, 0xFFFFFFFFFFFFFFFFull, 0x8000000000000001ull})
 TD_REGULAR(VecPod, true, "std::vector<Pod>", VecPod{},
            VecPod{Pod{1, 1.5, 'a'}, Pod{2, -2.5, 'b'}})
-TD_REGULAR(VecS, true, "std::vector<std::string>", VecS{}, VecS{""},
+TD_REGULAR_X(VecS, true, SizedSeqFamily, "std::vector<std::string>", VecS{}, VecS{""},
            VecS{"x", "", "hello world"})
-TD_REGULAR(VecP, true, "std::vector<std::pair<int,double>>", VecP{},
+TD_REGULAR_X(VecP, true, SizedSeqFamily, "std::vector<std::pair<int,double>>", VecP{},
            VecP{PairID(1, 1.5), PairID(2, -2.5)})
-TD_REGULAR(VecVI, true, "std::vector<std::vector<int>>", VecVI{},
+TD_REGULAR_X(VecVI, true, SizedSeqFamily, "std::vector<std::vector<int>>", VecVI{},
            VecVI{VecI{}, VecI{1, 2}})
-TD_REGULAR(DeqI, false, "std::deque<int>", DeqI{}, DeqI{7},
+TD_REGULAR_X(DeqI, false, DequeFamily, "std::deque<int>", DeqI{}, DeqI{7},
            DeqI{1, 2, 3, 4, 5})
-TD_REGULAR(DeqS, false, "std::deque<std::string>", DeqS{}, DeqS{"ab", "", "c"})
+TD_REGULAR_X(DeqS, false, DequeFamily, "std::deque<std::string>", DeqS{}, DeqS{"ab", "", "c"})
 
 // std::tuple: written element by element, read through the tuple overload
 template <>
@@ -419,6 +449,9 @@ struct TD<GTupIDC> : IO<GTupIDC, true> {
 template <>
 struct TD<GPairIS> : IO<GPairIS, false> {
   static const char* name() { return "galois::Pair<int,std::string>"; }
+  static const char* family() {
+    return "galois::Pair<T1,T2>-with-non-memory-copyable-member";
+  }
   static int nvals() { return 2; }
   static void make(int i, GPairIS& o) {
     o.first  = i ? 4 : 0;
@@ -433,6 +466,7 @@ struct TD<GPairIS> : IO<GPairIS, false> {
 template <>
 struct TD<CAtomI> : IO<CAtomI, false> {
   static const char* name() { return "galois::CopyableAtomic<int>"; }
+  static const char* family() { return "galois::CopyableAtomic<T>"; }
   static int nvals() { return 2; }
   static void make(int i, CAtomI& o) { o.store(i ? -5 : 0); }
   static bool eq(const CAtomI& a, const CAtomI& b) {
@@ -440,7 +474,7 @@ struct TD<CAtomI> : IO<CAtomI, false> {
   }
 };
 template <>
-struct TD<VecCA> : IO<VecCA, true> {
+struct TD<VecCA> : IO<VecCA, true>, SizedSeqFamily {
   static const char* name() {
     return "std::vector<galois::CopyableAtomic<int>>";
   }
@@ -490,7 +524,7 @@ struct TD<GDeqI> : SeqTD<GDeqI>, IO<GDeqI, true> {
   }
 };
 template <>
-struct TD<GDeqS> : SeqTD<GDeqS>, IO<GDeqS, true> {
+struct TD<GDeqS> : SeqTD<GDeqS>, IO<GDeqS, true>, SizedSeqFamily {
   static const char* name() { return "galois::gdeque<std::string>"; }
   static int nvals() { return 2; }
   static void make(int i, GDeqS& o) {
@@ -584,11 +618,31 @@ struct TD<Nested<R>> {
   static void deser(RecvBuffer& b, T& v) { gr::gDeserialize(b, v); }
 };
 
+// Violation keys name the defect, not the instantiation: a descriptor may give
+// the family its type belongs to for the entry-point check (family) and for
+// the gSized check (sized_family); the default is the type's own name.
+template <class D, class = void>
+struct family_of {
+  static const char* get() { return D::name(); }
+};
+template <class D>
+struct family_of<D, std::void_t<decltype(D::family())>> {
+  static const char* get() { return D::family(); }
+};
+template <class D, class = void>
+struct sized_family_of {
+  static const char* get() { return D::name(); }
+};
+template <class D>
+struct sized_family_of<D, std::void_t<decltype(D::sized_family())>> {
+  static const char* get() { return D::sized_family(); }
+};
 // ---------------------------------------------------------------------------
 // type-erased table
 // ---------------------------------------------------------------------------
 struct TypeOps {
   const char* name;
+  const char *family, *sized_family;
   int nvals;
   bool public_ser, sized_ovl, ser_ovl, deser_ovl;
   void* (*create)();
@@ -617,6 +671,8 @@ struct Erase {
   static void deser(RecvBuffer& b, void* p) { TD<T>::deser(b, *(T*)p); }
   static TypeOps ops() {
     return TypeOps{TD<T>::name(),
+                   family_of<TD<T>>::get(),
+                   sized_family_of<TD<T>>::get(),
                    TD<T>::nvals(),
                    TD<T>::public_ser,
                    has_sized<typename TD<T>::Wire>::value,
@@ -643,7 +699,7 @@ using AllTypes =
     TL<uint8_t, uint32_t, uint64_t, double, PairID, GPairID, GTupIDC, Pod,
        UserCopyable, std::string, VecI, VecU8, VecU64, VecPod, PodArrI,
        PodArrU64, VecS, VecP, VecVI, VecCA, GDeqI, GDeqS, galois::DynamicBitSet,
-       NestedS, NestedR, UserSer,
+       NestedS, NestedR, UserSer, VecUS, PairSV,
        // no public gSerialize (E4): written through internal::gSerializeObj
        DeqI, DeqS, CAtomI, GPairIS,
        // read overload only / lazy write interface
@@ -653,7 +709,7 @@ using VarAll =
     TL<uint8_t, uint32_t, uint64_t, double, PairID, GPairID, GTupIDC, Pod,
        UserCopyable, std::string, VecI, VecU8, VecU64, VecPod, PodArrI,
        PodArrU64, VecS, VecP, VecVI, VecCA, GDeqI, GDeqS, galois::DynamicBitSet,
-       NestedS, NestedR, UserSer>;
+       NestedS, NestedR, UserSer, VecUS, PairSV>;
 // one type per code path: 1-byte memcpy (shifts the alignment), 8-byte
 // memcpy, element-wise pair, string, linear sequence alignof 4 / alignof 8,
 // element-wise sequence, gdeque, bitset, raw nested buffer, user serialize()
@@ -822,6 +878,7 @@ static void mark(const std::vector<Sym>& seq) {
 }
 
 static void seq_case(uint64_t idx, bool) {
+  Watchdog wd;
   rt();
   SeqInput in = seq_decode(idx);
   size_t n    = in.seq.size();
@@ -1015,6 +1072,7 @@ static const VarCombo& var_decode(uint64_t idx, SeqInput& in) {
 }
 
 static void var_case(uint64_t idx, bool) {
+  Watchdog wd;
   rt();
   SeqInput in;
   const VarCombo& cb = var_decode(idx, in);
@@ -1085,6 +1143,7 @@ static void fail_once(const std::string& key, const std::string& msg) {
 }
 
 static void sized_case(uint64_t idx, bool) {
+  Watchdog wd;
   rt();
   int pad          = idx % NPAD;
   const Sym& s     = syms()[idx / NPAD];
@@ -1100,7 +1159,7 @@ static void sized_case(uint64_t idx, bool) {
   if (sz == NOSIZE)
     return; // no gSizedObj overload at all: E4
   if (sz != produced)
-    fail_once("gSized(" + std::string(t.name) + "):!=bytes-produced",
+    fail_once("gSized(" + std::string(t.sized_family) + "):!=bytes-produced",
               sym_name(s) + ": gSized = " + std::to_string(sz) +
                   ", gSerialize appended " + std::to_string(produced) +
                   " bytes");
@@ -1116,7 +1175,7 @@ static void entry_case(uint64_t idx, bool) {
     sx::mark_nontrivial();
   // gSerialize(buf, x) evaluates internal::gSizedObj(x) (Serialize.h:759,445)
   if (t.ser_ovl && t.deser_ovl && !t.sized_ovl)
-    fail("gSerialize(" + std::string(t.name) + "):does-not-compile",
+    fail("gSerialize(" + std::string(t.family) + "):does-not-compile",
          "internal::gSerializeObj and gDeserializeObj overloads exist for %s "
          "but there is no internal::gSizedObj overload, and the public "
          "gSerialize(buf, x) calls gSized(x): it cannot be instantiated",
@@ -1129,7 +1188,8 @@ static void entry_case(uint64_t idx, bool) {
 // E5: read into an object that already holds a value
 // ---------------------------------------------------------------------------
 // Composite targets with a std::string member read through the library
-// (galois::Pair<int,string>, std::tuple<..,string>) are left out: they would
+// (galois::Pair<int,string>, std::tuple<..,string>, std::pair<string,..>) are
+// left out: they would
 // only repeat the std::string result under a second key.
 struct ReuseInput {
   int pad, type, oldv, newv;
@@ -1139,7 +1199,8 @@ static std::vector<int>& reuse_types() {
     std::vector<int> r;
     for (size_t t = 0; t < types().size(); ++t) {
       std::string n = types()[t].name;
-      if (n == TD<GPairIS>::name() || n == TD<TupIDS>::name())
+      if (n == TD<GPairIS>::name() || n == TD<TupIDS>::name() ||
+          n == TD<PairSV>::name())
         continue;
       r.push_back((int)t);
     }
@@ -1170,6 +1231,7 @@ static ReuseInput reuse_decode(uint64_t idx) {
   abort();
 }
 static void reuse_case(uint64_t idx, bool) {
+  Watchdog wd;
   rt();
   ReuseInput in    = reuse_decode(idx);
   const TypeOps& t = types()[in.type];
@@ -1253,6 +1315,7 @@ static const char* BUFOP_NAME[B_NOPS] = {
 };
 
 static std::string bufops_run(const std::vector<int>& h) {
+  Watchdog wd;
   std::unique_ptr<SendBuffer> S(new SendBuffer());
   std::unique_ptr<RecvBuffer> D(new RecvBuffer());
   std::vector<uint8_t> ms, md; // models
@@ -1473,7 +1536,7 @@ int main(int argc, char** argv) {
     c.opname = [](int i) { return std::string(BUFOP_NAME[i]); };
     c.run    = bufops_run;
     c.quick_depth    = 6;
-    c.thorough_depth = 8;
+    c.thorough_depth = 7;
     bfs.push_back(c);
   }
   {
